@@ -14,6 +14,8 @@ VARIANTS = {
     'plain17':    dict(cc='g++', flags=['-std=c++17', '-O2'] + _G),
     'asan':       dict(cc='g++', flags=['-std=c++11', '-O1', '-fsanitize=address,undefined', '-fno-sanitize-recover=all'] + _G, env=ASAN_ENV),
     'asan17':     dict(cc='g++', flags=['-std=c++17', '-O1', '-fsanitize=address,undefined', '-fno-sanitize-recover=all'] + _G, env=ASAN_ENV),
+    'asan20':     dict(cc='g++', flags=['-std=c++20', '-O1', '-fsanitize=address,undefined', '-fno-sanitize-recover=all'] + _G, env=ASAN_ENV),
+    'clang-asan20': dict(cc='clang++', flags=['-std=c++20', '-O1', '-fsanitize=address,undefined', '-fno-sanitize-recover=all', '-fno-sanitize=object-size'] + _G, env=ASAN_ENV),
     'clang-asan': dict(cc='clang++', flags=['-std=c++11', '-O1', '-fsanitize=address,undefined', '-fno-sanitize-recover=all', '-fno-sanitize=object-size'] + _G, env=ASAN_ENV),
     'clang-asan17': dict(cc='clang++', flags=['-std=c++17', '-O1', '-fsanitize=address,undefined', '-fno-sanitize-recover=all', '-fno-sanitize=object-size'] + _G, env=ASAN_ENV),
     'tsan':       dict(cc='g++', flags=['-std=c++11', '-O1', '-fsanitize=thread', '-DVF_TSAN'] + _G, env=TSAN_ENV, extra_src=['vlistshim.cpp']),
@@ -366,12 +368,13 @@ CHECKS['C18'] = dict(
     level='exploration',
     rule='8 configurations: Digester {std::hash, SmallHash (signed, range 4, salted per type: collisions across and within types)} x Storage {VStore (type tag + text, == and <), TStore (normalising: text only, == and <), EmptyAnyStorage, NStore '
          '(stores the value, no operators)}; per case a pool of 36-44 ids from ints/longs/chars/strings with duplicates and cross-type equal numbers; ALL ordered pairs and ALL triples of the pool checked '
-         'for: == equivalence, < strict weak order, incomparability classes == equality classes, equal ids hash equally (also on copies), ground truth (value equality for VStore, digest equality otherwise); '
+         'for: == equivalence, < strict weak order, incomparability classes == equality classes, equal ids hash equally (also on copies), an id copy- or move-assigned over any other id of the pool is the assigned id (equal, incomparable, same hash), ground truth (value equality for VStore, digest equality otherwise); '
          'routing through EventDispatcher with unordered_map (default) and std::map (policy): exactly the listeners registered under ground-truth-equal ids run; non-trivial = pool has >=1 colliding-digest '
          'unequal pair and >=1 duplicate; distinct = trace hash; exhaustive within each pool',
-    jobs=[J('drv_anyid', 'asan17', 'mixed', 24000, 1200000, shards=8, shards_thorough=16), J('drv_anyid', 'clang-asan17', 'dense', 8000, 300000, seed_offset=1, shards=8, shards_thorough=16)],
+    jobs=[J('drv_anyid', 'asan17', 'mixed', 24000, 1200000, shards=8, shards_thorough=16), J('drv_anyid', 'clang-asan17', 'dense', 8000, 300000, seed_offset=1, shards=8, shards_thorough=16),
+          J('drv_anyid', 'asan20', 'mixed', 8000, 300000, seed_offset=2, shards=8, shards_thorough=16)],
     assumptions=['statement covers Storage types supporting both == and <, or neither'],
-    technique='algebraic-law monitor: all pairs and triples of generated id pools + routing oracle through both map kinds, g++ and clang++, ASan+UBSan',
+    technique='algebraic-law monitor: all pairs and triples of generated id pools + routing oracle through both map kinds, g++ (C++17, C++20) and clang++, ASan+UBSan',
     level_text='Exploration: ~64k triples per pool, tens of thousands of pools per quick run.',
     level_note='Trusted: ground-truth equality defined by the harness per storage kind.',
 )
